@@ -373,6 +373,13 @@ func RunSeq(sc SeqScenario) (evs []Ev, inconclusive string) {
 				srcs[op.Table] = src
 			}
 			in.Log(Ev{"tr": sc.Tr, "e": "table", "name": op.Table, "rows": arows, "err": b2i(err != nil)})
+		case "reregsrc":
+			// the SAME source object handed to RegisterTableSource once more (as a second query sharing the table would do): its
+			// contents, updates included, stay what they are
+			if src := srcs[op.Table]; src != nil {
+				err := s.RegisterTableSource(src)
+				in.Log(Ev{"tr": sc.Tr, "e": "reregsrc", "name": op.Table, "err": b2i(err != nil)})
+			}
 		case "upsert":
 			err := s.UpsertTable(op.Table, decodeRow(op.Row))
 			in.Log(Ev{"tr": sc.Tr, "e": "upsert", "i": i + 1, "table": op.Table, "row": AbsRow(decodeRow(op.Row)), "err": b2i(err != nil)})
